@@ -1692,6 +1692,10 @@ pub struct ConnectionH2<Front: SocketHandler> {
     pub encoder: loona_hpack::Encoder<'static>,
     pub expect_read: Option<(H2StreamId, usize)>,
     pub expect_write: Option<H2StreamId>,
+    /// A control frame (SETTINGS ACK, PING ACK, graceful GOAWAY) sits in the
+    /// zero buffer while `expect_write` names a stream whose frame is
+    /// half-written: it goes out once that frame is complete, never inside it.
+    deferred_control_write: bool,
     pub last_stream_id: StreamId,
     pub local_settings: H2Settings,
     pub peer_settings: H2Settings,
@@ -1910,6 +1914,7 @@ impl<Front: SocketHandler> ConnectionH2<Front> {
             encoder: loona_hpack::Encoder::new(),
             expect_read,
             expect_write: None,
+            deferred_control_write: false,
             last_stream_id: 0,
             local_settings,
             peer_settings: H2Settings::default(),
@@ -2832,6 +2837,15 @@ impl<Front: SocketHandler> ConnectionH2<Front> {
             }
         }
 
+        // The frame that was half-written is out: a control frame deferred
+        // behind it is written now, on the frame boundary, ahead of any other
+        // frame.
+        if self.deferred_control_write && self.expect_write.is_none() {
+            if let Some(result) = self.flush_pending_control_frames() {
+                return result;
+            }
+        }
+
         self.gauge_connection_state();
 
         let scheme: &'static [u8] = if context.listener.borrow().protocol() == Protocol::HTTPS {
@@ -3383,6 +3397,20 @@ impl<Front: SocketHandler> ConnectionH2<Front> {
     }
 
     /// Re-arm edge-triggered WRITABLE event if rustls still has buffered TLS data.
+    /// The zero buffer holds a control frame that has to be written next. A
+    /// stream whose DATA or HEADERS frame is half-written (the socket or the
+    /// TLS layer took a part of it, `expect_write` names the stream) is
+    /// resumed first: a control frame written at that point would land in the
+    /// middle of the frame and the peer would lose the framing of the whole
+    /// connection.
+    fn expect_control_write(&mut self) {
+        if matches!(self.expect_write, Some(H2StreamId::Other { .. })) {
+            self.deferred_control_write = true;
+        } else {
+            self.expect_write = Some(H2StreamId::Zero);
+        }
+    }
+
     fn ensure_tls_flushed(&mut self) {
         if self.socket.socket_wants_write() {
             self.readiness.signal_pending_write();
@@ -3600,6 +3628,13 @@ impl<Front: SocketHandler> ConnectionH2<Front> {
                 );
                 return Some(self.goaway(H2Error::SettingsTimeout));
             }
+        }
+
+        // The half-written stream frame a control frame was waiting for is
+        // complete (or its stream is gone): the control frame is next.
+        if self.deferred_control_write && self.expect_write.is_none() {
+            self.deferred_control_write = false;
+            self.expect_write = Some(H2StreamId::Zero);
         }
 
         // Stage — resume zero-buffer flush.
@@ -4714,7 +4749,7 @@ impl<Front: SocketHandler> ConnectionH2<Front> {
                 // zero-buffer resume stage of `writable` re-arms READABLE once the
                 // flush is complete; only the final GOAWAY (via `goaway()`) removes
                 // it for good.
-                self.expect_write = Some(H2StreamId::Zero);
+                self.expect_control_write();
                 self.readiness.interest.remove(Ready::READABLE);
                 self.readiness.arm_writable();
                 MuxResult::Continue
@@ -5855,7 +5890,7 @@ impl<Front: SocketHandler> ConnectionH2<Front> {
 
         self.readiness.interest.insert(Ready::WRITABLE);
         self.readiness.interest.remove(Ready::READABLE);
-        self.expect_write = Some(H2StreamId::Zero);
+        self.expect_control_write();
         self.readiness.signal_pending_write();
         MuxResult::Continue
     }
@@ -5912,7 +5947,7 @@ impl<Front: SocketHandler> ConnectionH2<Front> {
         };
         self.readiness.interest.insert(Ready::WRITABLE);
         self.readiness.interest.remove(Ready::READABLE);
-        self.expect_write = Some(H2StreamId::Zero);
+        self.expect_control_write();
         self.readiness.signal_pending_write();
         MuxResult::Continue
     }
